@@ -33,6 +33,32 @@ type effectCtx struct {
 	p    *core.Program
 	memo map[*ssa.Function]map[string]string // root ("param:i", "free", "global") -> description of a write through it
 	busy map[*ssa.Function]bool
+	// owns decides whether a write to field `field` of struct `owner` counts (nil = the C10 persisted-state tables)
+	owns func(owner, field string) bool
+	// mapType decides whether an update of a value of this named map/slice type counts
+	mapType func(t string) bool
+	// sliceAlias also counts appends that can write into the backing array of a slice held by an owned field
+	sliceAlias bool
+	// noCallbacks: calls of event/modifier callbacks are not effects (they belong to the caller)
+	noCallbacks bool
+}
+
+func (c *effectCtx) ownsField(o, f string) bool {
+	if c.owns != nil {
+		return c.owns(o, f)
+	}
+	if !c10PersistedOwners[o] {
+		return false
+	}
+	_, tr := c10Transient[o+"."+f]
+	return !tr
+}
+
+func (c *effectCtx) ownsMapType(t string) bool {
+	if c.mapType != nil {
+		return c.mapType(t)
+	}
+	return t == "flows.Results" || t == "flows.FieldValues"
 }
 
 func ownerOfFieldAddr(v ssa.Value) (string, string) {
@@ -128,14 +154,25 @@ func rootsOf(v ssa.Value, fn *ssa.Function) map[string]bool {
 			walk(x.Tuple)
 		case *ssa.Call:
 			// the result may alias anything reachable from the pointer-like arguments (getters); constructors without
-			// pointer arguments yield fresh objects
+			// pointer arguments yield fresh objects. Raw data ([]byte, string) cannot alias structured objects and vice
+			// versa (marshal/unmarshal round trips produce fresh values).
+			if f := x.Call.StaticCallee(); f != nil && returnsFresh(f, 0) {
+				return
+			}
+			resRaw := isRawData(x.Type())
 			if x.Call.IsInvoke() {
-				walk(x.Call.Value)
+				if !resRaw {
+					walk(x.Call.Value)
+				}
 			}
 			for _, a := range x.Call.Args {
-				if pointerish(a.Type()) {
-					walk(a)
+				if !pointerish(a.Type()) {
+					continue
 				}
+				if isRawData(a.Type()) != resRaw {
+					continue
+				}
+				walk(a)
 			}
 		}
 	}
@@ -143,38 +180,142 @@ func rootsOf(v ssa.Value, fn *ssa.Function) map[string]bool {
 	return out
 }
 
-// instrWrite: the location written by the instruction (if its type is part of the persisted state) and what it is.
-func instrWrite(in ssa.Instruction) (ssa.Value, string) {
+// isRawData: []byte, string, json.RawMessage or a tuple whose pointer-like members are all of those.
+func isRawData(t types.Type) bool {
+	switch u := t.Underlying().(type) {
+	case *types.Basic:
+		return true
+	case *types.Slice:
+		if b, ok := u.Elem().Underlying().(*types.Basic); ok && (b.Kind() == types.Byte || b.Kind() == types.Uint8) {
+			return true
+		}
+	case *types.Tuple:
+		for i := 0; i < u.Len(); i++ {
+			et := u.At(i).Type()
+			if pointerish(et) && !isRawData(et) && !isErrorType(et) {
+				return false
+			}
+		}
+		return true
+	}
+	return false
+}
+
+var freshMemo = map[*ssa.Function]int{}
+
+// returnsFresh: every value f returns (first result) is an object created inside f (or by another such function).
+func returnsFresh(f *ssa.Function, depth int) bool {
+	if f == nil || f.Blocks == nil || depth > 6 {
+		return false
+	}
+	if v, ok := freshMemo[f]; ok {
+		return v == 1
+	}
+	freshMemo[f] = 2
+	ok := len(core.Returns(f)) > 0
+	for _, ret := range core.Returns(f) {
+		if len(ret.Results) == 0 {
+			ok = false
+			break
+		}
+		if core.IsNilConst(ret.Results[0]) {
+			continue
+		}
+		if len(rootsOf(ret.Results[0], f)) > 0 {
+			ok = false
+		}
+	}
+	if ok {
+		freshMemo[f] = 1
+	}
+	return ok
+}
+
+// instrWrite: the location written by the instruction (if it belongs to the state the context tracks) and what it is.
+func (c *effectCtx) instrWrite(in ssa.Instruction) (ssa.Value, string) {
 	switch x := in.(type) {
 	case *ssa.Store:
 		addr := x.Addr
 		if ia, ok := addr.(*ssa.IndexAddr); ok {
 			if ld, ok := ia.X.(*ssa.UnOp); ok {
-				if o, f := ownerOfFieldAddr(ld.X); o != "" && c10PersistedOwners[o] {
-					if _, tr := c10Transient[o+"."+f]; !tr {
-						return ld.X, "element store into " + o + "." + f
-					}
+				if o, f := ownerOfFieldAddr(ld.X); o != "" && c.ownsField(o, f) {
+					return ld.X, "element store into " + o + "." + f
 				}
 			}
 			return nil, ""
 		}
-		if o, f := ownerOfFieldAddr(addr); o != "" && c10PersistedOwners[o] {
-			if _, tr := c10Transient[o+"."+f]; tr {
-				return nil, ""
-			}
+		if o, f := ownerOfFieldAddr(addr); o != "" && c.ownsField(o, f) {
 			return addr, "store to " + o + "." + f
 		}
 	case *ssa.MapUpdate:
 		if ld, ok := x.Map.(*ssa.UnOp); ok {
-			if o, f := ownerOfFieldAddr(ld.X); o != "" && c10PersistedOwners[o] {
+			if o, f := ownerOfFieldAddr(ld.X); o != "" && c.ownsField(o, f) {
 				return x.Map, "map update of " + o + "." + f
 			}
 		}
-		if t := core.ShortType(x.Map.Type()); t == "flows.Results" || t == "flows.FieldValues" {
+		if t := core.ShortType(x.Map.Type()); c.ownsMapType(t) {
 			return x.Map, "map update of " + t
+		}
+	case *ssa.Call:
+		// delete(m, k) on an owned map; append into a re-sliced owned slice
+		if b, ok := x.Call.Value.(*ssa.Builtin); ok {
+			switch b.Name() {
+			case "delete":
+				m := x.Call.Args[0]
+				if ld, ok := m.(*ssa.UnOp); ok {
+					if o, f := ownerOfFieldAddr(ld.X); o != "" && c.ownsField(o, f) {
+						return m, "delete from " + o + "." + f
+					}
+				}
+				if t := core.ShortType(m.Type()); c.ownsMapType(t) {
+					return m, "delete from " + t
+				}
+			case "append":
+				if !c.sliceAlias {
+					return nil, ""
+				}
+				// append(x, ...) where x is (a phi/append chain over) a re-slice s.f[:k] of an owned field: the append can
+				// overwrite elements of the shared backing array
+				if fa := reslicedOwnedField(x.Call.Args[0]); fa != nil {
+					if o, f := ownerOfFieldAddr(fa); o != "" && c.ownsField(o, f) {
+						return fa, "append into a re-slice of " + o + "." + f + " (shares its backing array)"
+					}
+				}
+			}
 		}
 	}
 	return nil, ""
+}
+
+// reslicedOwnedField: v derives, through phis and appends, from `slice (load of field)[lo:hi]`; returns the field address.
+func reslicedOwnedField(v ssa.Value) ssa.Value {
+	seen := map[ssa.Value]bool{}
+	var res ssa.Value
+	var walk func(v ssa.Value)
+	walk = func(v ssa.Value) {
+		if seen[v] || res != nil {
+			return
+		}
+		seen[v] = true
+		switch x := v.(type) {
+		case *ssa.Phi:
+			for _, e := range x.Edges {
+				walk(e)
+			}
+		case *ssa.Call:
+			if b, ok := x.Call.Value.(*ssa.Builtin); ok && b.Name() == "append" {
+				walk(x.Call.Args[0])
+			}
+		case *ssa.Slice:
+			if ld, ok := x.X.(*ssa.UnOp); ok && ld.Op == token.MUL {
+				if _, isFA := ld.X.(*ssa.FieldAddr); isFA {
+					res = ld.X
+				}
+			}
+		}
+	}
+	walk(v)
+	return res
 }
 
 // summary of fn: roots through which it (transitively) writes persisted state.
@@ -192,7 +333,7 @@ func (c *effectCtx) summary(fn *ssa.Function, depth int) map[string]string {
 	defer delete(c.busy, fn)
 	res := map[string]string{}
 	core.EachInstr(fn, false, func(f *ssa.Function, in ssa.Instruction) {
-		if loc, what := instrWrite(in); loc != nil {
+		if loc, what := c.instrWrite(in); loc != nil {
 			for rt := range rootsOf(loc, fn) {
 				if _, dup := res[rt]; !dup {
 					res[rt] = core.FuncName(fn) + ": " + what
@@ -275,6 +416,9 @@ func (c *effectCtx) callRoots(caller *ssa.Function, ci ssa.CallInstruction, dept
 		n, ok := t.(*types.Named)
 		return ok && (n.Obj().Name() == "EventCallback" || n.Obj().Name() == "ModifierCallback")
 	}
+	if c.noCallbacks {
+		return out
+	}
 	if prm, isParam := cc.Value.(*ssa.Parameter); isParam && isEventCB(prm.Type()) {
 		for r2 := range rootsOf(prm, caller) {
 			out[r2] = core.FuncName(caller) + ": call of event callback " + prm.Name()
@@ -290,7 +434,7 @@ func (c *effectCtx) callRoots(caller *ssa.Function, ci ssa.CallInstruction, dept
 
 // instrEffect / callEffect / fnEffect: an effect exists when the write goes through any non-fresh root.
 func (c *effectCtx) instrEffect(fn *ssa.Function, in ssa.Instruction) string {
-	if loc, what := instrWrite(in); loc != nil {
+	if loc, what := c.instrWrite(in); loc != nil {
 		if len(rootsOf(loc, fn)) > 0 {
 			return what
 		}
